@@ -18,3 +18,12 @@ package p2p
 //@   requires message != nil && r != nil && (forall t Str, i :: has(deref(r), t) && 0 <= i && i < len(deref(r)[t]) ==> deref(r)[t][i] != nil)
 //@   ensures ret0 == 0 || ret0 == 1 || ret0 == 2
 //@   opt frame = off
+//@
+//@ // C04: every validator registered for a topic takes part in the combination - registering appends to the
+//@ // topic's validator list, it never replaces or drops one.
+//@ func (*P2PMessaging).addValidatorImpl
+//@   requires m != nil && m.validatorRegistry != nil && m.gossipTopicNames != nil && messProto != nil
+//@   assigns mapof(p2p.ValidatorRegistry), mapof(map[string]struct{})
+//@   ensures has(m.validatorRegistry, topic) && len(m.validatorRegistry[topic]) == old(ite(has(m.validatorRegistry, topic), len(m.validatorRegistry[topic]), 0)) + 1
+//@   ensures forall i :: 0 <= i && i < old(ite(has(m.validatorRegistry, topic), len(m.validatorRegistry[topic]), 0)) ==> m.validatorRegistry[topic][i] == old(m.validatorRegistry[topic][i])
+//@   ensures forall t Str :: t != topic ==> (has(m.validatorRegistry, t) == old(has(m.validatorRegistry, t)) && len(m.validatorRegistry[t]) == old(len(m.validatorRegistry[t])))
